@@ -191,6 +191,8 @@ def run_release(ctx: Ctx, r: LockRoles, locked: Optional[bool]):
 
 def c02(ctx: Ctx) -> None:
     r = LockRoles(ctx)
+    from .common import rule_unbound
+    rule_unbound(ctx, 'C02-U1', [s_ for s_ in r.unit.functions() if s_.enclosing_class() is not None and s_.enclosing_function() is None], 'the FileLock classes')
     p = ctx.program
     ctx.trusted += ['flock(2) / msvcrt.locking exclude between open file descriptions',
                     'threading.Lock / RLock semantics']
@@ -571,6 +573,8 @@ def fold_bool(e: ast.expr, env: Dict[str, bool]) -> Optional[bool]:
 
 def c12(ctx: Ctx) -> None:
     r = LockRoles(ctx)
+    from .common import rule_unbound
+    rule_unbound(ctx, 'C12-U1', [s_ for s_ in r.unit.functions() if s_.enclosing_class() is not None and s_.enclosing_function() is None], 'the FileLock classes')
     p = ctx.program
     ctx.trusted += ['threading.Lock / RLock semantics', 'time.time / time.sleep']
     ctx.assumptions += ['precondition of every method: counter == depth of the thread lock held by the calling thread (c), '
@@ -1373,6 +1377,8 @@ def soft_lock_hits(tree: ast.AST, aliases: Dict[str, str]) -> List[Tuple[int, st
 
 def c13(ctx: Ctx) -> None:
     r = LockRoles(ctx)
+    from .common import rule_unbound
+    rule_unbound(ctx, 'C13-U1', [s_ for s_ in r.unit.functions() if s_.enclosing_class() is not None and s_.enclosing_function() is None], 'the FileLock classes')
     p = ctx.program
     u = r.unit
     ctx.trusted += ['the kernel releases flock()/locking() locks when the owning process dies',
